@@ -2,6 +2,7 @@
 pub mod bankops;
 pub mod cfgsim;
 pub mod config;
+pub mod auth;
 pub mod curve;
 pub mod delevsim;
 pub mod hops;
@@ -10,6 +11,7 @@ pub mod panic;
 pub mod prefee;
 pub mod privsim;
 pub mod xrate;
+pub mod tx;
 
 pub fn lookup(name: &str) -> Option<fn(&str) -> String> {
     Some(match name {
@@ -17,6 +19,7 @@ pub fn lookup(name: &str) -> Option<fn(&str) -> String> {
         "curve" => curve::run,
         "bankops" => bankops::run,
         "hops" => hops::run,
+        "hopsref" => hops::run_ref,
         "prefee" => prefee::run,
         "xrate" => xrate::run,
         "oracle" => oracle::run,
@@ -26,6 +29,11 @@ pub fn lookup(name: &str) -> Option<fn(&str) -> String> {
         "cfgsim" => cfgsim::run,
         "privsim" => privsim::run,
         "delevsim" => delevsim::run,
+        "auth" => auth::run,
+        "txconsts" => tx::run_consts,
+        "txval" => tx::run_val,
+        "txsim" => tx::run_sim,
+        "txend" => tx::run_end,
         _ => return None,
     })
 }
